@@ -242,6 +242,11 @@ class CaseHooks(EBB3Hooks):
         r = EBB3Hooks.decide(self, cond, st)
         if r is not None:
             return r
+        if isinstance(cond, NotC):
+            inner = self.decide(cond.c, st)
+            return None if inner is None else not inner
+        if isinstance(cond, (AndC, OrC)):
+            return None      # the interpreter decomposes these and asks again
         _n, empty, starts, has_err, longer, comma = self.reply
         if isinstance(cond, Cmp) and isinstance(cond.a, Sym) and isinstance(cond.b, Sym):
             # comparisons on LEN(request) / LEN(reply) / LEN(name)
@@ -267,6 +272,23 @@ class CaseHooks(EBB3Hooks):
                     return None
             val = cond.a.subs(assign)
             return fold_cond(Cmp(cond.op, val, cond.b))
+        # request[1:2] (never out of range): '' for a one-letter request, ',' when arguments
+        # follow a one-letter name, otherwise the second letter of the name
+        def second_char(v):
+            if isinstance(v, Opaque) and v.label == 'slice' and self.is_request(v.args[0]) and \
+                    v.args[1] == Sym.const(1) and v.args[2] == Sym.const(2) and v.args[3] == NONE:
+                if self.length < 2:
+                    return ''
+                return ',' if self.kind[2] is True else 'letter'
+            return None
+        if isinstance(cond, In) and second_char(cond.item) is not None and \
+                isinstance(cond.container, Tup) and all(
+                    isinstance(x, Str) and x.is_lit() for x in cond.container.items):
+            return second_char(cond.item) in [x.text() for x in cond.container.items]
+        if isinstance(cond, Cmp) and cond.op in ('==', '!=') and isinstance(cond.b, Str) and \
+                cond.b.is_lit() and second_char(cond.a) is not None and \
+                not cond.b.text().isalpha():
+            return (second_char(cond.a) == cond.b.text()) == (cond.op == '==')
         if isinstance(cond, Cmp) and cond.op in ('==', '!='):
             a, b = cond.a, cond.b
             if isinstance(b, Str) and b.is_lit() and isinstance(a, Opaque) and a.label == 'item':
@@ -276,6 +298,16 @@ class CaseHooks(EBB3Hooks):
                         self.bad_index = 'request[1] is read for a one-letter request'
                         return False
                     return (self.kind[2] is True) == (cond.op == '==')
+                if self.is_request(obj) and b.text() == ',' and isinstance(idx, Sym) and \
+                        idx.is_const() and idx.const_value().denominator == 1 and \
+                        idx.const_value() >= 2:
+                    # request = name [',' arguments]; arguments never start with a comma
+                    k = int(idx.const_value())
+                    if self.length <= k:
+                        self.bad_index = 'request[%d] is read for a request of %d characters' % (
+                            k, self.length)
+                        return False
+                    return (k == self.name_len()) == (cond.op == '==')
                 if self.is_reply(obj) and b.text() == ',':
                     # reply[len(name)] == ','
                     if not longer:
@@ -312,19 +344,58 @@ def slice_start(v, hooks):
             return None if inner is None else inner + v.args[1]
         if hooks.is_reply(v.args[0]):
             return v.args[1]
+    if isinstance(v, Opaque) and v.label == 'm:removeprefix' and len(v.args) == 2:
+        # reply.removeprefix(p): on the success rows the reply starts with the name
+        base, p = v.args
+        inner = Sym.const(0) if hooks.is_reply(base) else slice_start(base, hooks)
+        if inner is None:
+            return None
+        if hooks.name_form(p) is not None and inner == Sym.const(0):
+            return inner + hooks.name_len()
+        if isinstance(p, Str) and p.is_lit() and p.text() == ',':
+            _n, _e, _s, _h, longer, comma = hooks.reply
+            return inner + (1 if (longer and comma) else 0)
     return None
+
+
+def strips_character_set(v, hooks):
+    """reply.lstrip(chars) / strip(chars): removes every leading character of a *set*, which can
+    eat the beginning of the payload - never the same as removing the name."""
+    return isinstance(v, Opaque) and v.label in ('m:lstrip', 'm:strip') and len(v.args) == 2 and \
+        (hooks.is_reply(v.args[0]) or slice_start(v.args[0], hooks) is not None)
+
+
+class _Deferred:
+    """Obligation sink for a case with undecided conditions: failures are kept aside."""
+
+    def __init__(self, ck, undecided, pending):
+        self.ck, self.undecided, self.pending = ck, undecided, pending
+
+    def ob(self, rule, instance, ok, detail='', loc='', key=None):
+        if ok:
+            return self.ck.ob(rule, instance, ok, detail, loc, key)
+        self.pending.append((rule, repr(self.undecided[0])[:200], detail))
+
+    def __getattr__(self, name):
+        return getattr(self.ck, name)
 
 
 def check_tables(ck, eng, name):
     fn = eng.method(name)
     q = fn.qualname
     rows = {}
+    pending = []
     for kind in REQUEST_KINDS:
         for length in kind[1]:
             for reply in REPLY_CASES:
                 hk = CaseHooks(eng, fn, kind, length, reply)
                 outs = eng.run(name, OK, overrides={fn.params[1]: param_value(fn)}, hooks=hk)
                 inst = '%s[%s,len=%d | %s]' % (q, kind[0], length, reply[0])
+                # a case in which the request / reply conditions were not all decided explores
+                # infeasible combinations: a mismatch there is not a verdict
+                real_ck = ck
+                if hk.undecided:
+                    ck = _Deferred(real_ck, hk.undecided, pending)
                 # D3: the name used in the reply test
                 forms = {hk.name_form(n) for n in hk.names}
                 if hk.names:
@@ -365,6 +436,11 @@ def check_tables(ck, eng, name):
                                       if at[0] == 'f' and at[1] == 'LEN'}
                             sv = start.subs(assign)
                             got = int(sv.const_value()) if sv.is_const() else None
+                        if got is None and not hk.bad_index and \
+                                not strips_character_set(o.value, hk):
+                            pending.append(('C05-D4-query-result', 'the returned value %r is not '
+                                            'a slice of the reply' % (o.value,), ''))
+                            continue
                         ck.ob('C05-D4-query-result', inst, got == want and not hk.bad_index,
                               '%s returns the reply from offset %s for reply class "%s" (name '
                               'length %d): expected offset %d (name and one separating comma '
@@ -373,6 +449,12 @@ def check_tables(ck, eng, name):
                               fn.loc(), key='%s::result-offset' % q)
                 rows[(kind[0], length, reply[0])] = sorted({
                     ('raise' if o.kind == 'raise' else classify_ret(o.value)) for o in outs})
+                ck = real_ck
+    if pending and not ck.violations:
+        raise AnalysisError('%s: %d table entr%s could not be decided because the case analysis '
+                            'does not decide %s' % (q, len(pending),
+                                                    'y' if len(pending) == 1 else 'ies',
+                                                    pending[0][1]))
     ck.sample({q: {'%s|%s' % (k[0], k[2]): v for k, v in list(rows.items())[:8]}})
     return rows
 
@@ -424,7 +506,9 @@ def exemption_in_path(path):
             inner, t = inner.c, not t
         if isinstance(inner, In) and isinstance(inner.container, Tup) and t and all(
                 isinstance(x, Str) and x.is_lit() for x in inner.container.items):
-            return {x.text() for x in inner.container.items}
+            names = {x.text() for x in inner.container.items}
+            if all(n.isalpha() for n in names):      # a set of request names, not of separators
+                return names
     return None
 
 
